@@ -119,7 +119,7 @@ class LayoutTyper(Structured):
         out = {}
         for p in fi.params:
             u = uses.get(p, set())
-            if u & {'values', 'domain', 'expand'}:
+            if u & {'values', 'domain', 'expand', 'datavector', 'condition', 'logsumexp', 'logaddexp'}:
                 out[p] = 'factor'
             elif u & {'shape', 'axes', 'attrs', 'marginalize', 'merge', 'contains'} or \
                     (u & {'project', 'size'} and not u & {'values'}):
@@ -133,7 +133,19 @@ class LayoutTyper(Structured):
         return dict(st)
 
     def join(self, a, b):
-        return {k: v for k, v in a.items() if k in b and b[k] == v}
+        out = {}
+        for k, v in a.items():
+            if k not in b:
+                continue
+            if b[k] == v:
+                out[k] = v
+            elif isinstance(v, V) and isinstance(b[k], V) and v.kind == 'arr' and b[k].kind == 'arr':
+                # the array's layout differs between the paths (e.g. it changes inside a loop)
+                terms = set()
+                for x in (v.a, b[k].a):
+                    terms |= set(x[1]) if isinstance(x, tuple) and x[0] == 'varying' else {x}
+                out[k] = V('arr', ('varying', frozenset(terms)), deps=v.deps | b[k].deps)
+        return out
 
     # -- term builders ---------------------------------------------------------
     def attrs_term(self, e, env):
@@ -343,6 +355,11 @@ class LayoutTyper(Structured):
 
     def axis_value(self, ax, env):
         """abstract value of an axis argument expression"""
+        # D.axes([a])[0] : the position of one attribute
+        if isinstance(ax, ast.Subscript) and isinstance(ax.slice, ast.Constant) and ax.slice.value == 0:
+            inner = self.axis_value(ax.value, env)
+            if inner.kind == 'axes':
+                return inner
         if isinstance(ax, ast.Call) and isinstance(ax.func, ast.Name) and ax.func.id in ('tuple', 'list') \
                 and len(ax.args) == 1:
             return self.axis_value(ax.args[0], env)
@@ -355,6 +372,12 @@ class LayoutTyper(Structured):
         if axis_expr is None or (isinstance(axis_expr, ast.Constant) and axis_expr.value is None):
             return SCALAR
         av = self.axis_value(axis_expr, env)
+        if av.kind == 'axes' and isinstance(arr.a, tuple) and arr.a[0] == 'varying':
+            # the operand's layout changes along the way (a loop consuming axes) but the lookup domain does not
+            rep('axis-by-name', node, False,
+                'axes looked up on the fixed domain %s for an operand whose layout changes between iterations (%s): after the first '
+                'axis is consumed the positions are stale' % (show(av.a), ' / '.join(sorted(show(t) for t in arr.a[1]))))
+            return V('arr', ('positional', 'stale axes'), deps=arr.deps)
         if av.kind == 'axes':
             ok = av.a == arr.a
             rep('axis-by-name', node, ok,
@@ -461,6 +484,11 @@ class LayoutTyper(Structured):
                     rep('inplace', e, dst.a == src.a, 'copy of array laid out by %s into array laid out by %s'
                         % (show(src.a), show(dst.a)))
                 return UNK
+            if name in ('dot', 'inner', 'vdot', 'matmul', 'tensordot') and len(e.args) >= 2:
+                # positional pairing of the cells of two arrays: they must be laid out alike
+                vals = [self.ev(a, env, quiet) for a in e.args[:2]]
+                self.elementwise(e, vals, rep)
+                return SCALAR
             if name in ELEMENTWISE_NP:
                 vals = [self.ev(a, env, quiet) for a in e.args]
                 for k in ('where', 'out'):
@@ -479,6 +507,10 @@ class LayoutTyper(Structured):
                     return self.reduce(e, recv, ax, env, rep, self.truthy(kw.get('keepdims')))
                 if name == 'squeeze':
                     return self.squeeze(e, recv, kw.get('axis', e.args[0] if e.args else None), env, rep)
+                if name == 'take' and e.args:
+                    # V.take(i, axis=A): indexing one attribute away
+                    ax = kw.get('axis', e.args[1] if len(e.args) > 1 else None)
+                    return self.reduce(e, recv, ax, env, rep)
                 if name in ('copy', 'astype', 'flatten', 'ravel', 'clip'):
                     return recv
                 if name == 'reshape' and len(e.args) == 1:
